@@ -50,23 +50,30 @@ def nontrivial(h):
     return conn and act
 
 
-def generate(chk, name, c, *, simulate=None, depth=None, seed=None, max_hist=None, workers=None):
+def generate(chk, name, c, *, simulate=None, depth=None, seed=None, workers=None, chunk=20000, consume=None):
+    """Run TLC as history generator.  Histories are handed to consume(list) in chunks (memory stays bounded:
+    TLC blocks on its output pipe while a chunk is being replayed); returns the number of distinct histories."""
     cfg = vkit.write_cfg(name, c, invariants=INVS + ["Emit"], constraint="GenConstraint")
-    hists, seen = [], set()
+    buf, seen = [], set()
 
     def sink(v):
+        # the simulator re-evaluates the invariant on retried successors: dedupe
         k = hash(json.dumps(strip_obs(v), sort_keys=True))
         if k in seen:
             return
         seen.add(k)
-        if max_hist is None or len(hists) < max_hist:
-            hists.append(v)
+        buf.append(v)
+        if len(buf) >= chunk:
+            consume(list(buf))
+            del buf[:]
     res = vkit.tlc("Listener", cfg, simulate=simulate, depth=depth, seed=seed, print_sink=sink,
-                   workers=workers or (8 if simulate else vkit.NCPU))
+                   workers=workers or (8 if simulate else vkit.NCPU), timeout=3000)
+    if buf:
+        consume(list(buf))
     chk.add_tlc(name, res)
-    if not hists:
+    if not seen:
         raise vkit.InfraError("generator %s produced no histories" % name)
-    return hists
+    return len(seen)
 
 
 def histogram(hists, d):
@@ -131,15 +138,15 @@ def run(tier, seed):
     gens = [
         # every history of the core API (no accept faults), callbacks doing every re-entrant call
         dict(name="C44_exh_core", n=3,
-             consts=consts(3, 6 if q else 7, [0, 1, 2, 3, 6, 7], acts=ACTS - {"seterr"})),
+             consts=consts(3, 5 if q else 7, [0, 1, 2, 3, 6, 7], acts=ACTS - {"seterr"})),
         # accept faults: every script position x every failure, error callback doing nothing / disable / free
         dict(name="C44_exh_faults", n=3,
-             consts=consts(3, 6 if q else 7, [2, 3], acts={"connect", "loop", "seterr", "free"} | (set() if q else {"setcb"}),
-                           ascr=ascripts(2, FAILS) | {("zlen",), ("nosys",), ("ok", "zlen"), ("zlen", "emfile"), ("nosys", "nomem")},
+             consts=consts(3, 5 if q else 6, [2, 3], acts={"connect", "loop", "seterr", "free"},
+                           ascr=ascripts(1 if q else 2, ["again", "abort", "emfile", "nomem"] if q else FAILS) | {("zlen",), ("nosys",), ("ok", "zlen"), ("zlen", "emfile"), ("nosys", "nomem")},
                            cbacts={"free", "disable"}, cbpos=1, erracts=("none", "disable", "free"))),
         # accepted-socket flags and the locking variant
         dict(name="C44_exh_flags", n=2,
-             consts=consts(2, 5, [2 + 8, 3 + 16, 2 + 8 + 16 + 32, 3 + 32, 1 + 32, 7 + 32 + 8],
+             consts=consts(2, 5 if q else 6, [2 + 8, 3 + 16, 2 + 8 + 16 + 32, 3 + 32, 1 + 32, 7 + 32 + 8],
                            acts=ACTS - {"seterr"}, ascr=((), ("nosys",)), cbacts={"free", "setfn2"}, cbpos=2)),
         # long random histories with everything at once
         dict(name="C44_rand", n=4, simulate=150 if q else 4000, depth=40,
@@ -148,15 +155,20 @@ def run(tier, seed):
     ]
     hg = {}
     for g in gens:
-        hs = generate(chk, g["name"], g["consts"], simulate=g.get("simulate"), depth=g.get("depth"),
-                      seed=seed if g.get("simulate") else None)
-        for h in hs:
-            chk.count_case(strip_obs(h), nontrivial(h))
-        for h in hs[len(hs) // 2: len(hs) // 2 + 1]:
-            chk.sample({"gen": g["name"], "history": strip_obs(h), "predicted_obs": [s["o"] for s in h]})
-        histogram(hs, hg)
-        vkit.log("[C44] %s: %d histories" % (g["name"], len(hs)))
-        replay_corpus(chk, exe, hs, g["n"], g["name"])
+        sampled = []
+
+        def consume(hs, g=g, sampled=sampled):
+            for h in hs:
+                chk.count_case(strip_obs(h), nontrivial(h))
+            if not sampled:
+                h = hs[len(hs) // 2]
+                chk.sample({"gen": g["name"], "history": strip_obs(h), "predicted_obs": [s["o"] for s in h]})
+                sampled.append(1)
+            histogram(hs, hg)
+            replay_corpus(chk, exe, hs, g["n"], g["name"])
+        n = generate(chk, g["name"], g["consts"], simulate=g.get("simulate"), depth=g.get("depth"),
+                     seed=seed if g.get("simulate") else None, consume=consume)
+        vkit.log("[C44] %s: %d histories" % (g["name"], n))
     chk.cov["op_histogram"] = hg
     need = ["connect", "loop", "enable", "disable", "setcb", "seterr", "free", "delivered", "errcb", "closed_seen",
             "incb:free", "incb:disable", "incb:setnull", "incb:setfn2", "inerrcb:free", "inerrcb:disable",
@@ -168,7 +180,7 @@ def run(tier, seed):
                        "Listener.tla for N connections; TLC then enumerates every API history of the stated depth "
                        "(exhaustive configs) and simulates long random ones; each history is replayed on a real "
                        "evconnlistener (127.0.0.1:0, real clients, accept4 answering from the script) and after every "
-                       "step return value, fds owned by the listener (/proc/self/fd), listening socket open or not, "
+                       "step return value, fds owned by the listener (probe of the process fd table), listening socket open or not, "
                        "what every client sees, and per loop step the accept-callback log (connection identified by "
                        "peer port, callback identity, O_NONBLOCK/FD_CLOEXEC of the fd, address == getpeername) and the "
                        "error-callback log (errno) are compared. distinct = distinct op sequences; non-trivial = a "
